@@ -61,7 +61,12 @@ theorem both_crash_safe (f : Flavour) (key : Option Bytes) (o : WriteOpts) (chun
     ContentValid cfg cache (crash env (writeStream cfg cache f key o chunks) fs n t) :=
   wpD_crash (writeStream_wp cfg env cache f key o chunks hv) n t
 
-/-- A cache written by one flavour is read identically by the others: reading has no flavour. -/
+/-- A cache written by one flavour is read identically by the others: reading has no flavour.
+(A DEFINITIONAL fact about the model, proved by `rfl`: the model has ONE `read` program, without a
+`Flavour` parameter, for the sync and async entry points — this records that modelling decision,
+it is not a result about two programs.  What gives it content is the correspondence of the three
+real builds with this one model (header), and for the writers — which do have a flavour —
+`same_answer`, `same_record`, `flavour_assignment_irrelevant`.) -/
 theorem cross_flavour_read (fs' : FS) (key : Bytes) :
     (fun (_ : Flavour) => (run env (read cfg cache key) fs').1) Flavour.sync =
     (fun (_ : Flavour) => (run env (read cfg cache key) fs').1) Flavour.async := rfl
